@@ -510,6 +510,66 @@ func runC13(w *World, r *Report) {
 		}
 	}
 
+	// context cancellation is matchable: the error returned on the ctx.Done() arm of the run loop wraps ctx.Err() itself
+	// (context.Canceled / DeadlineExceeded) — not context.Cause(ctx), which is the CALLER's error when the context was
+	// cancelled with a cause
+	r.Rule("C13.cancel-matchable", "runner.run: every error returned on a `<-ctx.Done()` arm derives from ctx.Err()", 1)
+	{
+		runF := w.Fn("compose", "runner.run")
+		n := 0
+		instrs(runF, func(in ssa.Instruction) {
+			sel, ok := in.(*ssa.Select)
+			if !ok {
+				return
+			}
+			doneState := -1
+			for i, st := range sel.States {
+				if c, ok := st.Chan.(*ssa.Call); ok && c.Call.IsInvoke() && c.Call.Method.Name() == "Done" {
+					doneState = i
+				}
+			}
+			if doneState < 0 {
+				return
+			}
+			// the arm: blocks guarded by index == doneState
+			instrs(runF, func(x ssa.Instruction) {
+				ret, ok := x.(*ssa.Return)
+				if !ok || len(ret.Results) != 2 {
+					return
+				}
+				inArm := hasGuard(ret.Block(), func(g guard) bool {
+					op, a, b, ok := asCmp(g.cond)
+					if !ok || op != token.EQL || !g.pol {
+						return false
+					}
+					e, ok := a.(*ssa.Extract)
+					return ok && e.Tuple == ssa.Value(sel) && e.Index == 0 && isConstN(b, int64(doneState))
+				})
+				if !inArm {
+					return
+				}
+				n++
+				fromErr := false
+				instrs(runF, func(y ssa.Instruction) {
+					if c, ok := y.(*ssa.Call); ok && c.Call.IsInvoke() && c.Call.Method.Name() == "Err" && isContextType(c.Call.Value.Type()) {
+						if derivesFrom(returnedValue(ret, 1), c) {
+							fromErr = true
+						}
+					}
+				})
+				r.Check(fromErr, "C13.cancel-matchable", fmt.Sprintf("runner.run: cancellation return #%d wraps ctx.Err()", n), ret.Pos(), "the returned error derives from ctx.Err()", "the error returned when the context is done does not derive from ctx.Err(): for a context cancelled with a cause (WithCancelCause, WithTimeoutCause …) errors.Is(err, context.Canceled) / errors.Is(err, context.DeadlineExceeded) are false on the run's error, through nested graphs too")
+			})
+		})
+		if n == 0 {
+			r.Fail("C13.cancel-matchable", "runner.run: cancellation arm", runF.Pos(), "no return on a `<-ctx.Done()` arm found")
+		}
+	}
+
+	r.Rule("C13.done-after-recover", "every goroutine of the module that signals a WaitGroup and recovers its own panic into an error slot signals last (tools node workers, concurrent retrievers)", 2)
+	if n := ruleDoneAfterRecover(w, r, "C13.done-after-recover", "compose", "flow", "schema", "internal", "callbacks", "components", "utils"); n < 2 {
+		r.Fail("C13.done-after-recover", "WaitGroup goroutines with a recover handler", run0(w).Pos(), fmt.Sprintf("%d found (floor 2)", n))
+	}
+
 	// sentinel
 	r.Rule("C13.sentinel", "the step-limit exit of runner.run returns a run error whose cause is the ErrExceedMaxSteps sentinel itself (built at the exit, or once in a package-level variable)", 1)
 	run := w.Fn("compose", "runner.run")
